@@ -84,7 +84,7 @@ def factories():
         add(n, ARITY[n], angles(k), lambda p, w, c=getattr(qp, n): c(*p, wires=w))
     for n in (1, 2, 3):
         add("MultiRZ", n, angles(1), lambda p, w: qp.MultiRZ(*p, wires=w))
-    for word in ("X", "Z", "XY", "ZZ", "YIX", "ZZZ"):
+    for word in ("X", "Z", "XY", "ZZ", "IZ", "YIX", "ZZZ"):
         add("PauliRot", len(word), angles(1), lambda p, w, word=word: qp.PauliRot(p[0], word, wires=w))
     add("GlobalPhase", 1, angles(1), lambda p, w: qp.GlobalPhase(*p, wires=w))
     add("OrbitalRotation", 4, angles(1), lambda p, w: qp.OrbitalRotation(*p, wires=w))
@@ -127,6 +127,7 @@ def numeric_claim(attr, fac, rng, reps):
     nw, draw, make = fac["nw"], fac["draw"], fac["make"]
     w = list(range(nw))
     n = 0
+    squeezed = None
     for k in range(reps):
         p = draw(rng, k)
         if attr == "self_inverses":
@@ -172,16 +173,20 @@ def numeric_claim(attr, fac, rng, reps):
             if c < 1e-12 or not _close(gg, c * np.eye(len(gg))):
                 return n, f"generator G has G'G not proportional to the identity at parameters {p}"
         elif attr == "supports_broadcasting":
-            B = int(rng.choice([1, 2, 3, 5]))
+            B = [1, 2, 3, 5][k % 4]
             ps = [draw(rng, int(rng.integers(0, 40))) for _ in range(B)]
             if not ps[0]:
                 return n, "the operation has no parameters to broadcast"
             stack = np.stack([_mat(make(q, w), w) for q in ps])
             bp = tuple(np.stack([q[i] for q in ps]) for i in range(len(ps[0])))
             n += 1
-            got = _mat(make(bp, w), w)
-            if not _close(got, stack):
-                return n, f"batched matrix (batch size {B}) differs from the stack of per-element matrices"
+            kind, why = _bcast_verdict(_mat(make(bp, w), w), stack)
+            if kind == "batch1-squeezed":
+                squeezed = why
+            elif kind:
+                return n, f"batched matrix (batch size {B}) differs from the stack of per-element matrices: {why}"
+    if squeezed:
+        return n, "batch1-squeezed: " + squeezed
     return n, None
 
 
@@ -193,6 +198,23 @@ def _live_claims():
         for name in sorted(s):
             out.append((a, str(name)))
     return out
+
+
+def _bcast_verdict(got, exp):
+    """-> (None, '') when the batched matrix equals the stack; ('batch1-squeezed', why) when a batch of ONE element comes back
+    without its batch dimension (values right, shape (d, d) instead of (1, d, d)); ('claim-false', why) otherwise."""
+    got = np.asarray(got)
+    if _close(got, exp):
+        return None, ""
+    if exp.shape[0] == 1 and got.shape == exp.shape[1:] and _close(got, exp[0]):
+        return "batch1-squeezed", f"batch of one element: matrix has shape {got.shape}, the stack has shape {exp.shape}"
+    if got.shape != exp.shape:
+        return "claim-false", f"shape {got.shape} instead of {exp.shape}"
+    return "claim-false", f"max err {float(np.max(np.abs(got - exp))):.3g}"
+
+
+def _bcast_key(kind, name):
+    return f"broadcast-batch1-squeezed:{name}" if kind == "batch1-squeezed" else f"claim-false:supports_broadcasting:{name}"
 
 
 def _group_key(c):
@@ -331,26 +353,28 @@ def run(tier, seed):
             groups = {}
             for c, exp in inst_by_name[name]:
                 groups.setdefault(_group_key(c), []).append((c["p"], exp))
-            bad_b = None
+            bad_b = {}
             for (g, nw, x), lst in sorted(groups.items()):
                 lst.sort(key=lambda t: t[0])
-                batches = [lst] + [[rnd.choice(lst) for _ in range(rnd.choice([1, 2, 3, 7]))] for _ in range(3)]
+                if not lst[0][0]:
+                    bad_b["claim-false"] = f"{g} has no parameter to broadcast"
+                    continue
+                batches = [lst, [rnd.choice(lst)]] + [[rnd.choice(lst) for _ in range(rnd.choice([2, 3, 7]))] for _ in range(2)]
                 for bt in batches:
                     cols = [np.array([angle_of(p[k], M) for p, _ in bt]) for k in range(len(bt[0][0]))]
                     expb = np.stack([e for _, e in bt])
                     try:
-                        got = _mat(_batched_op(g, nw, x, cols), list(range(nw)))
-                        okb = _close(got, expb)
-                        why = f"max err {float(np.max(np.abs(got - expb))):.3g}" if got.shape == expb.shape else f"shape {got.shape}"
+                        kind, why = _bcast_verdict(_mat(_batched_op(g, nw, x, cols), list(range(nw))), expb)
                     except Exception as e:  # noqa: BLE001
-                        okb, why = False, f"{type(e).__name__}: {e}"
+                        kind, why = "claim-false", f"{type(e).__name__}: {e}"
                     n_bcast += 1
-                    if not okb and bad_b is None:
-                        bad_b = f"{g} on {nw} wires {('word ' + str(x)) if x else ''} batch size {len(bt)}: {why}"
-            if bad_b:
-                viol.append(Violation(key=f"claim-false:{attr}:{name}",
+                    if kind and kind not in bad_b:
+                        bad_b[kind] = f"{g} on {nw} wires {('word ' + ''.join(PWI[c] for c in x)) if x else ''} batch size {len(bt)}: {why}"
+            for kind, why in bad_b.items():
+                viol.append(Violation(key=_bcast_key(kind, name),
                                       detail=f"attributes.{attr} lists {name} but its batched matrix differs from the stack of "
-                                             f"the documented per-element matrices ({bad_b})", replay={"attr": attr, "name": name}))
+                                             f"the documented per-element matrices ({why})", replay={"attr": attr, "name": name}))
+            if bad_b:
                 continue
         if decided_by_tlc:
             validated.append((attr, name))
@@ -364,21 +388,22 @@ def run(tier, seed):
         # an additional off-lattice + boundary-value pass for the others
         if name not in F:
             raise lib.MachineryError(f"claim ({attr}, {name}) cannot be evaluated: no table entry and no instance factory")
-        bad_n = None
+        bad_n = {}
         for fac in F[name]:
             try:
                 k, why = numeric_claim(attr, fac, nrng, reps)
             except Exception as e:  # noqa: BLE001
                 k, why = 1, f"exception {type(e).__name__}: {e}"
             n_num += k
-            if why and bad_n is None:
-                bad_n = f"on {fac['nw']} wire(s): {why}"
+            if why:
+                kind = "batch1-squeezed" if why.startswith("batch1-squeezed") else "false"
+                bad_n.setdefault(kind, f"on {fac['nw']} wire(s): {why}")
         if not decided_by_tlc:
             bridged.append((attr, name))
             per_attr[attr]["bridged"] += 1
-        if bad_n:
-            viol.append(Violation(key=f"numeric:{attr}:{name}",
-                                  detail=f"attributes.{attr} lists {name} but the predicate fails on PennyLane's own matrices {bad_n}"
+        for kind, why in bad_n.items():
+            viol.append(Violation(key=f"broadcast-batch1-squeezed:{name}" if kind == "batch1-squeezed" else f"numeric:{attr}:{name}",
+                                  detail=f"attributes.{attr} lists {name} but the predicate fails on PennyLane's own matrices {why}"
                                          + ("" if decided_by_tlc else " [bridged: no table entry or binding mismatch: "
                                             + str(unbound.get(name, 'no table entry'))[:200] + "]"),
                                   replay={"attr": attr, "name": name}))
